@@ -17,7 +17,9 @@ def run(c, replay):
     ctx = dict(exe=exe, mexe=mexe, sd=sd, proof_ok=True)
     progs, runs = C.campaign(c, ctx, r, 5 if c.tier == "quick" else 60, S.mask("ROLLBACK", "FOSSIL", "COMMIT"), c.tier, variants=("pred",),
                              extra_cfgs=[(2, 1, 10), (3, 1, 50), (4, 2, 100), (8, 1, 20)], long_every=1)
-    runs = runs + C.lp_campaign(c, ctx, r, 12 if c.tier == "quick" else 200, S.mask("ROLLBACK", "FOSSIL", "COMMIT"))
+    lpruns = C.lp_campaign(c, ctx, r, 12 if c.tier == "quick" else 200, S.mask("ROLLBACK", "FOSSIL", "COMMIT"))
+    c.cov.update(C.worker_report(c, lpruns))
+    runs = runs + lpruns
     fos = rb_after = okr = 0
     for run_ in runs:
         res, pr = run_["res"], run_["prog"]
